@@ -864,6 +864,65 @@ const (
 	vc08KnownOptAlone = "opt-alone-exceeds-udp-limit"
 )
 
+// vc08Findings separates the three recorded root causes from everything else:
+// a case that matches the predicate of one of them is never an immediate
+// failure, so that one run reports every root cause.  If the finding is listed
+// in known_findings.json it is counted as excluded (st.Known); if it is not,
+// the smallest matching case is kept and the test fails after the search with
+// one message per finding.
+type vc08Findings struct {
+	st       *vstat.Stats
+	mu       sync.Mutex
+	unlisted map[string]*vc08Unlisted
+}
+
+type vc08Unlisted struct {
+	n    int
+	size int
+	what string
+	c    vc08Case
+}
+
+func vc08NewFindings(st *vstat.Stats) *vc08Findings {
+	return &vc08Findings{st: st, unlisted: map[string]*vc08Unlisted{}}
+}
+
+// match records that c matches finding id; what describes the observation.  It
+// returns the class to count.
+func (f *vc08Findings) match(id, what string, c *vc08Case) (class string) {
+	if f.st.Known(id) {
+		return "known:" + id
+	}
+
+	f.mu.Lock()
+	defer f.mu.Unlock()
+
+	u := f.unlisted[id]
+	if u == nil {
+		u = &vc08Unlisted{size: 1 << 30}
+		f.unlisted[id] = u
+	}
+
+	u.n++
+	if size := c.Req.Len + c.Resp.PreU; size < u.size {
+		u.size, u.what, u.c = size, what, *c
+	}
+
+	return "unlisted:" + id
+}
+
+// report fails t once per unlisted finding.
+func (f *vc08Findings) report(t testing.TB) {
+	f.mu.Lock()
+	defer f.mu.Unlock()
+
+	for _, id := range []string{vc08KnownOptSize, vc08KnownDoH64K, vc08KnownOptAlone} {
+		if u := f.unlisted[id]; u != nil {
+			t.Errorf("C08 violated (finding %q, not listed in known_findings.json; %d cases, smallest shown):\n  %s\ncase: %+v", id, u.n, u.what, u.c)
+		}
+	}
+}
+
 type vc08Case struct {
 	Transport string        `json:"transport"`
 	Cap       uint16        `json:"cap"`
@@ -907,9 +966,9 @@ func vc08NonOpt(rrs []dns.RR) (n int) {
 
 // vc08Run generates nothing: it serves one fully described case and judges it.
 // Violations are returned as strings (empty: none); known findings are
-// filtered through st.Known.
+// routed through fnd.
 func vc08Run(
-	st *vstat.Stats,
+	fnd *vc08Findings,
 	e *vc08Env,
 	tr vc08Transport,
 	cap uint16,
@@ -1048,24 +1107,19 @@ func vc08Run(
 
 	// (1) size.
 	if len(out.msg) > limit {
-		known := false
-		if tr == vc08DoH && (rf.Pad >= 0) && len(out.msg) <= 65535+4+responsePaddingMaxSize && st.Known(vc08KnownDoH64K) {
-			known = true
-			cls("known:" + vc08KnownDoH64K)
-		}
-
-		if !known {
-			// Is there anything left to drop?  Unpack to find out.
-			m := &dns.Msg{}
-			if uerr := m.Unpack(out.msg); uerr == nil && tr.datagram() &&
-				len(m.Answer)+len(m.Ns)+vc08NonOpt(m.Extra) == 0 && st.Known(vc08KnownOptAlone) {
-				known = true
-				cls("known:" + vc08KnownOptAlone)
-			}
-		}
-
-		if !known {
-			bad("size: %d octets written, limit is %d", len(out.msg), limit)
+		what := fmt.Sprintf("size: %d octets written, limit is %d", len(out.msg), limit)
+		m := &dns.Msg{}
+		switch uerr := m.Unpack(out.msg); {
+		case tr == vc08DoH && rf.Pad >= 0 && len(out.msg) <= 65535+4+responsePaddingMaxSize:
+			// Padding is added after the size check; DoH has no 64 KiB guard.
+			c.OutLen = len(out.msg)
+			cls(fnd.match(vc08KnownDoH64K, what, &c))
+		case uerr == nil && tr.datagram() && len(m.Answer)+len(m.Ns)+vc08NonOpt(m.Extra) == 0:
+			// Header, question and OPT alone: nothing is left to drop.
+			c.OutLen = len(out.msg)
+			cls(fnd.match(vc08KnownOptAlone, what+" (header, question and OPT only)", &c))
+		default:
+			bad("%s", what)
 		}
 	}
 
@@ -1094,6 +1148,11 @@ func vc08Run(
 				cls("records-dropped-" + tr.String())
 			} else {
 				cls("records-dropped-stream")
+			}
+
+			if !pf.TC && pf.PreU <= limit {
+				// Over-truncation is not excluded by the statement.
+				cls("undecided:dropped-although-fits")
 			}
 
 			if !m.Truncated {
@@ -1132,8 +1191,8 @@ func vc08Run(
 			}
 
 			if o.UDPSize() != rf.UDPSize {
-				if (!pf.OwnOpt || replaced) && e.handled == 1 && o.UDPSize() == 0 && st.Known(vc08KnownOptSize) {
-					cls("known:" + vc08KnownOptSize)
+				if (!pf.OwnOpt || replaced) && e.handled == 1 && o.UDPSize() == 0 {
+					cls(fnd.match(vc08KnownOptSize, fmt.Sprintf("response OPT UDP size is 0, the client's is %d (the handler's response had no OPT, normalize appended one)", rf.UDPSize), &c))
 				} else {
 					bad("response OPT UDP size is %d, the client's is %d (handler response had its own OPT: %v)",
 						o.UDPSize(), rf.UDPSize, pf.OwnOpt)
@@ -1215,7 +1274,7 @@ func vc08Sample(st *vstat.Stats, sampled map[string]bool, c *vc08Case, classes [
 
 	for _, cl := range classes {
 		switch {
-		case strings.HasPrefix(cl, "known:"),
+		case strings.HasPrefix(cl, "known:"), strings.HasPrefix(cl, "unlisted:"),
 			cl == "records-dropped-udp", cl == "records-dropped-stream", cl == "stream-refused-near-64k":
 			if !sampled[cl] {
 				sampled[cl] = true
@@ -1246,6 +1305,8 @@ func TestVerifC08Transports(t *testing.T) {
 
 	e := vc08NewEnv()
 	sampled := map[string]bool{}
+	fnd := vc08NewFindings(st)
+	defer fnd.report(t)
 
 	rapid.Check(t, func(t *rapid.T) {
 		// UDP-like transports carry the inequality; give them half of the cases.
@@ -1263,7 +1324,7 @@ func TestVerifC08Transports(t *testing.T) {
 		// pin it to a drawn seed so that a case is a function of its draws.
 		rand.Seed(rapid.Int64().Draw(t, "padSeed"))
 
-		c, classes, violations := vc08Run(st, e, tr, cap, dohGet, req, rf, resp, pf)
+		c, classes, violations := vc08Run(fnd, e, tr, cap, dohGet, req, rf, resp, pf)
 		st.Case(vc08NTKey(&c), classes...)
 		vc08Sample(st, sampled, &c, classes)
 
@@ -1290,6 +1351,9 @@ func TestVerifC08UDPGrid(t *testing.T) {
 	st.Finish(t)
 
 	e := vc08NewEnv()
+	fnd := vc08NewFindings(st)
+	defer fnd.report(t)
+
 	advs := append([]int{-1}, func() (v []int) {
 		for _, x := range vc08GridValues {
 			v = append(v, int(x))
@@ -1308,7 +1372,7 @@ func TestVerifC08UDPGrid(t *testing.T) {
 
 				for _, ownOpt := range []bool{false, true} {
 					for d := -1; d <= 2; d++ {
-						vc08GridCase(t, st, e, tr, adv, cap, ownOpt, d)
+						vc08GridCase(t, st, fnd, e, tr, adv, cap, ownOpt, d)
 					}
 				}
 			}
@@ -1316,7 +1380,7 @@ func TestVerifC08UDPGrid(t *testing.T) {
 	}
 }
 
-func vc08GridCase(t *testing.T, st *vstat.Stats, e *vc08Env, tr vc08Transport, adv int, cap uint16, ownOpt bool, d int) {
+func vc08GridCase(t *testing.T, st *vstat.Stats, fnd *vc08Findings, e *vc08Env, tr vc08Transport, adv int, cap uint16, ownOpt bool, d int) {
 	rf := vc08ReqFacts{Name: "grid.example.", Qtype: dns.TypeTXT, Pad: -1, NSID: -1}
 	req := (&dns.Msg{}).SetQuestion(rf.Name, rf.Qtype)
 	req.Id = 4711
@@ -1362,14 +1426,14 @@ func vc08GridCase(t *testing.T, st *vstat.Stats, e *vc08Env, tr vc08Transport, a
 		t.Fatalf("vc08: harness: grid response is %d octets, want %d", pf.PreU, limit+d)
 	}
 
-	c, classes, violations := vc08Run(st, e, tr, cap, false, req, rf, resp, pf)
+	c, classes, violations := vc08Run(fnd, e, tr, cap, false, req, rf, resp, pf)
 	nt := ""
 	if d > 0 {
 		nt = fmt.Sprintf("%s|%d|%d|%v|%d", tr, adv, cap, ownOpt, d)
 	}
 
 	st.Case(nt, classes...)
-	if st.WantSample() && d == 1 {
+	if d == 1 && ownOpt && adv == 1232 && cap == 4096 {
 		st.Sample(c)
 	}
 
